@@ -358,6 +358,7 @@ class Monitors:
         target_only = args.target_ranking_only == 'True'
         is_3mr = '3mr' in heuristic
         req = pairs.requested_pairs(cols, label, target_only, is_3mr)
+        opt = pairs.optional_pairs(cols, label, target_only, is_3mr)
         colset = set(cols)
         cap = args.combination_number_upper_bound
         bad = [t for t in trip if t[0] not in colset or t[1] not in colset]
@@ -365,8 +366,8 @@ class Monitors:
             self.violate('C06', 'foreign-column', {'triplet': list(bad[0]), 'columns': cols[:20]})
             return
         got = {frozenset((a, b)) for a, b, _ in trip}
-        if not got <= req:
-            self.violate('C06', 'unrequested-pair', {'pair': sorted(next(iter(got - req))), 'mode': 'target-only' if target_only else 'pairwise', '3mr': is_3mr, 'columns': cols[:20]})
+        if not got <= (req | opt):
+            self.violate('C06', 'unrequested-pair', {'pair': sorted(next(iter(got - req - opt))), 'mode': 'target-only' if target_only else 'pairwise', '3mr': is_3mr, 'columns': cols[:20]})
             return
         if heuristic == 'Constant':
             evaluated = len(trip)
@@ -386,15 +387,15 @@ class Monitors:
             evaluated = len(trip) // 2
         ncand_lo = len(req)
         nonlabel = [c for c in cols if c != label]
-        ncand_hi = len(req) + (len(nonlabel) if not target_only else 0)
+        ncand_hi = len(req | opt) + (len(nonlabel) if not target_only else 0)
         if cap >= ncand_hi:
             self.probe('c06_cap_not_binding')
-            if got != req:
+            if not req <= got:
                 self.violate('C06', 'pair-lost', {'missing': [sorted(p) for p in list(req - got)[:4]], 'requested': len(req), 'got': len(got), 'cap': cap,
                                                    'mode': 'target-only' if target_only else 'pairwise', '3mr': is_3mr})
         else:
             self.probe('c06_cap_binding')
-            if evaluated not in (min(cap, ncand_lo), min(cap, ncand_hi)):
+            if not (min(cap, ncand_lo) <= evaluated <= min(cap, ncand_hi)):
                 self.violate('C06', 'cap-count', {'evaluated': evaluated, 'cap': cap, 'candidates': [ncand_lo, ncand_hi]})
 
     # ------------------------------------------------------------------------------ C07
@@ -613,6 +614,7 @@ def simulated_process(spec, phase, root):
                'skipped': mon.expected['skipped'], 'graph_calls': mon.graph_calls, 'sampler_calls': mon.sampler_calls,
                'interleaving': [p.interleaving_signature() for p in pools], 'reordered_amaps': sum(p.reordered() for p in pools),
                'pool_mode': [p.mode for p in pools], 'chunks': sum(len(p.completion_log) for p in pools),
+               'stream_returned': mon.stream_returned,
                'ckpt_write_open': any(os.path.basename(p) == CKPT for p in fs.open_writes)}
         if spec.get('ship_trace'):
             out['trace'] = sim.trace.events[:spec.get('ship_trace')]
